@@ -53,7 +53,8 @@ def main():
                                cwd=scratch, capture_output=True, text=True, timeout=1200, env=dict(env, PYTHONPATH=scratch))
             res["tests_with_patch"] = "pass" if p.returncode == 0 else "FAIL " + (p.stdout.strip().splitlines() or [""])[-1]
         for label, tree in (("demo_with_patch", scratch), ("demo_without_patch", clean)):
-            p = subprocess.run(["/venv/bin/python", os.path.abspath(args.demo)], cwd=tree, capture_output=True, text=True,
+            shutil.copy(os.path.abspath(args.demo), os.path.join(tree, "_vf_demo.py"))
+            p = subprocess.run(["/venv/bin/python", "_vf_demo.py"], cwd=tree, capture_output=True, text=True,
                                timeout=600, env=dict(env, PYTHONPATH=tree))
             res[label] = p.returncode
         res["checks"] = {}
